@@ -90,6 +90,11 @@ CLAIMED = {
   text='Decides necessary conditions only: cproc\'s own 19 translation units stay inside the subset cproc accepts (so a stage 2 can exist); the initializer list discipline its static tables rely on holds for all 399 histories of up to 3 nested/disjoint initializers; nothing in the compiler depends on environment, addresses, hash order or uninitialised constructor fields; hash() reads exactly the key; the instruction-selection table is right for every operator x type (incl. the 64-bit relational arms the compiler\'s own code uses). Byte-identity of stage-1 and stage-2 output is NOT decided (needs the QBE backend and execution).',
   note='Trusts clang 14 front end, lib/eai.py, witness/c02_witness.c, and the rules it shares with C01/C16/C20.',
   design='5/C02'),
+ 'C06': dict(
+  technique='abstract interpretation of decl.c:tagspec/addmember/declarator, type.c:typemember/typehasint/mkarraytype and expr.c:builtinfunc(offsetof) over bounded families of member-declaration sequences, enumerator lists, type trees and array declarators built from the compiler\'s static type descriptors; results compared with a psABI layout reference and a C23/LP64 enum reference (both validated once against gcc 12 / clang 14, tools/validate_c06_ref.py)',
+  text='Decides for x86-64 SysV: (a) size, alignment, member offsets and bit-field storage unit/bit position for every struct of up to 3 (quick: 2 + 600 of length 3) and union of up to 2 member declarations over an alphabet of 25 member forms (all integer base types x widths 0/1/3/7/8/9/15/16/31/32/33/40/63/64, named/unnamed, plain scalars, nested struct, array, long double); (b) a table of _Alignas/packed cases; (c) the enum type, enumerator values and enumerator types for all enumerator lists of length <= 2 (thorough 3) over 17 boundary values, with and without a fixed underlying type; (d) offsetof through anonymous members / arrays over 5 type trees; (e) array sizes incl. overflow and negative-length diagnostics. NOT decided: longer member sequences, nesting-depth interactions beyond the alphabet, aligned(n) attribute parsing, aarch64/riscv64 (the layout code is target-independent; only the scalar tables differ, covered by C05.f).',
+  note='Trusts clang 14 front end, lib/eai.py, the token-cursor / structdecl / condexpr models in props/c06.py, the reference layout()/enum_ref() (validated outside the check against the platform compilers on 4710 layouts and 791 enums, 0 mismatches).',
+  design='5/C06'),
  'C01': dict(
   technique='abstract interpretation (partial evaluation of the lowering functions over the static type/operator descriptor domain) + AST table extraction vs C11/QBE oracle tables',
   text='Decides structural clauses only: the instruction-selection, conversion, load/store, truthiness and bit-field shift tables that every compiled program is lowered through are extracted from the current source by an abstract interpreter and compared exhaustively (over the finite descriptor domain) with oracle tables written from C11 and the QBE manual; sibling switches are checked for exhaustiveness. Semantic equivalence of emitted IL for arbitrary programs is NOT decided.',
@@ -97,7 +102,6 @@ CLAIMED = {
   design='5/C01'),
 }
 NA = {
- 'C06': 'object layout is incremental arithmetic on run-time widths/offsets (decl.c:addmember); no dataflow/typestate rule is a necessary condition a realistic edit would break; scalar size/alignment table is covered under C05.f',
  'C07': 'byte images are functions of run-time offsets, bit positions and values flowing through initadd/emitdata; not decidable by a static rule in this family',
 }
 
